@@ -66,7 +66,7 @@ R.contract(
     file=TRK,
     params=dict(self="SingleObjectiveProgressTracker", individuals="list[Individual]"),
     returns="None",
-    requires={**T_OK, **DISTINCT_L},
+    requires={**T_OK, **DISTINCT_L, "history_is_private": "not same(individuals, self.hist)"},
     ensures={
         **T_OK,
         "history_extended": "len(self.hist) == old(len(self.hist)) + len(individuals) and "
@@ -216,6 +216,15 @@ LOOP_MOD = ["self.tracker.best_individual", "self.tracker.hist[]", "class:Search
             "self.problem.ff.fn.ncalls", "all:dict", "all:field:phenotype", "self.random.*"]
 search_contract(
     "RandomSearch", RS, 1,
+    loops={0: Loop(invariants={k: v.format(batch=1) for k, v in LOOP_INV.items()}, modifies=LOOP_MOD,
+                   decreases="self.budget.evaluations_budget - self.tracker.evaluator.count")},
+)
+
+R.cls("RepresentationWithMutation", fields={}, file="geneticengine/representations/api.py")
+R.cls("RepresentationWithCrossover", fields={}, file="geneticengine/representations/api.py")
+search_contract(
+    "OnePlusOne", OPO, 1,
+    extra_req={"representation_mutates": "isinstance(self.representation, RepresentationWithMutation)"},
     loops={0: Loop(invariants={k: v.format(batch=1) for k, v in LOOP_INV.items()}, modifies=LOOP_MOD,
                    decreases="self.budget.evaluations_budget - self.tracker.evaluator.count")},
 )
